@@ -78,6 +78,28 @@ End Drivers.
 Definition pmap {P A B} (f : A -> B) (D : producer P A) : producer P B :=
   mk_producer _ _ (p_split D) (fun p => map f (p_items D p)) (p_len D).
 
+(* rayon::iter::Enumerate as a producer transformer: EnumerateProducer { base, offset }; split_at(k) keeps the offset on the left
+   and adds k on the right; into_iter zips (offset .. offset + base.into_iter().len()) with the base iterator *)
+Definition penum {P A} (D : producer P A) : producer (nat * P) (nat * A) :=
+  mk_producer _ _
+    (fun q k => obind (p_split D (snd q) k) (fun pq => Ok ((fst q, fst pq), (fst q + k, snd pq))))
+    (fun q => combine (seq (fst q) (p_len D (snd q))) (p_items D (snd q)))
+    (fun q => p_len D (snd q)).
+
+(* rayon's own producer for an index range `(lo..hi).into_par_iter()` (rayon code, trusted like the rest of rayon): the window
+   (a, b) stands for the indices a .. b-1 *)
+Definition prod_range : producer (nat * nat) nat :=
+  mk_producer _ _
+    (fun p k => if (k <=? snd p - fst p)%nat then Ok ((fst p, fst p + k), (fst p + k, snd p)) else Panic)
+    (fun p => seq (fst p) (snd p - fst p))
+    (fun p => snd p - fst p).
+
+(* an index range as the code writes it: (lo, hi, inclusive) *)
+Definition range_count (r : nat * nat * bool) : nat :=
+  let '(lo, hi, incl) := r in if incl then S hi - lo else hi - lo.
+Definition range_list (r : nat * nat * bool) : list nat := seq (fst (fst r)) (range_count r).
+Definition range_root (r : nat * nat * bool) : nat * nat := (fst (fst r), fst (fst r) + range_count r).
+
 (* split points a driver may use on a producer of length n: lo <= k <= n at every node (lo = 1 for the 1-D producer, whose
    split_at computes `index - 1` on usize; lo = 0 for the 2-D one).  rayon's bridge uses 1 <= k = len/2 <= len-1. *)
 Fixpoint admissible (lo : nat) (t : tree) (n : nat) : Prop :=
